@@ -471,6 +471,7 @@ func runMerge(args []string) error {
 		}
 		for _, rd := range readers {
 			rd.Close()
+			rd.Close() // a second Close (defer + explicit) may fail but must leave every other reader alone
 		}
 		os.RemoveAll(base)
 	}
